@@ -42,6 +42,20 @@ Theorem divRoundUp_unsigned_no_overflow : forall bits a b,
 Proof. exact divRoundUp_u_no_overflow. Qed.
 Print Assumptions divRoundUp_unsigned_no_overflow.
 
+(* at a type narrower than int (8/16-bit, signed or unsigned) the sum is formed in int and narrowed ONCE at the return:
+   whenever the least quotient fits T the result is the least quotient, even when a + b - 1 exceeds max(T) *)
+Theorem divRoundUp_narrow_is_least_quotient : forall (sgn : bool) bits a b,
+  0 < bits -> 0 <= a -> 0 < b -> divRoundUp a b < 2 ^ (bits - (if sgn then 1 else 0)) ->
+  divRoundUp_n sgn bits a b = divRoundUp a b /\
+  divRoundUp_n sgn bits a b * b >= a /\ (forall q', q' * b >= a -> divRoundUp_n sgn bits a b <= q').
+Proof. exact divRoundUp_narrow_least. Qed.
+Print Assumptions divRoundUp_narrow_is_least_quotient.
+
+Example divRoundUp_narrow_ex :
+  divRoundUp_n false 8 200 100 = 2 /\ divRoundUp_n false 8 255 2 = 128 /\ divRoundUp_n true 8 127 127 = 1 /\
+  divRoundUp_n true 16 32767 2 = 16384 /\ divRoundUp_n false 16 65535 65535 = 1.
+Proof. vm_compute. repeat split; reflexivity. Qed.
+
 Example divRoundUp_ex : divRoundUp 7 2 = 4 /\ divRoundUp 8 2 = 4 /\ divRoundUp 0 5 = 0 /\
                         divRoundUp_u 32 4294967295 2 = 0.
 Proof. vm_compute. auto. Qed.
